@@ -53,7 +53,7 @@ def plan(tier, seed):
     for fam in fams:
         for impl in ('c', 'py'):
             specs.append(dict(label='%s-%s' % (fam, impl), family=fam,
-                              impl=impl, schedules=260 if q else 8000,
+                              impl=impl, schedules=900 if q else 8000,
                               seed=seed, tier=tier, variant='mon',
                               timeout=900 if q else 7200))
     return specs
